@@ -31,7 +31,7 @@ def evaluate(case, ctr, rng):
                     if field in t:
                         nontrivial.append(common.h([case.src, b.entry_instr.line, field]))
                     if not ctxlib.addr_admits(av, atom):
-                        viols.append({"kind": "address-not-admitted", "key": (b.entry_instr.line, field), "ckey": field,
+                        viols.append({"kind": "address-not-admitted", "key": (b.entry_instr.line, field), "ckey": field, "atom": atom,
                                       "what": "accepting execution with %s=%s visits block at line %d; info any=%s no=%s addrs=%s" % (
                                           field, atom, b.entry_instr.line, av.any_addr, av.no_addr, sorted(av.possible_addr)),
                                       "exec": frag.slim_exec(e), "ended_in_call": e.ended_in_call})
